@@ -50,6 +50,8 @@ type c08redis struct {
 	pending []c08rset
 	lag     time.Duration
 	sets    int
+	getLag  time.Duration // a GET is answered this much later (a slow server / network)
+	down    bool          // PING is answered with an error: the proxy's ping loop marks the server as lost
 }
 
 func c08newRedis(lag time.Duration) *c08redis {
@@ -118,8 +120,18 @@ func (s *c08redis) handle(c net.Conn) {
 		case "CLUSTER":
 			out = "-ERR This instance has cluster support disabled\r\n"
 		case "PING":
+			s.mu.Lock()
+			down := s.down
+			s.mu.Unlock()
 			out = "+PONG\r\n"
+			if down {
+				out = "-ERR down\r\n"
+			}
 		case "GET":
+			s.mu.Lock()
+			gl := s.getLag
+			s.mu.Unlock()
+			time.Sleep(gl)
 			now := time.Now()
 			s.mu.Lock()
 			s.applyDue(now)
@@ -274,6 +286,12 @@ func c08redisRun(cs string) string {
 	if m["op"] == "restore" {
 		return c08restore(m)
 	}
+	if m["op"] == "slowget" {
+		return c08slowGet(m)
+	}
+	if m["op"] == "outage" {
+		return c08outage(m)
+	}
 	return "bad-op"
 }
 
@@ -304,6 +322,7 @@ func c08twoTier(m map[string]string) string {
 		rr.Name = nameBuf(pos.Answers[0].Hdr().Name)
 		rr.Type, rr.Class, rr.TTL = 16, 1, 300
 		d := make([]byte, 200)
+		rand.New(rand.NewSource(nonce*1000 + int64(n))).Read(d) // incompressible: the cache value is compressed
 		d[0] = 199
 		rr.Data = pool.GetBuf(len(d))
 		copy(rr.Data, d)
@@ -377,6 +396,107 @@ func c08restore(m map[string]string) string {
 		return fmt.Sprintf("got=new ## ttl=%d", ttl)
 	}
 	return fmt.Sprintf("got=old ## ttl=%d", ttl)
+}
+
+// op=slowget ttl=<n> lag=<ms>: redis only; an answer with ttl n is stored, then looked up while the server takes
+// `lag` ms to answer the GET. The ttl of what the lookup returns is judged at the moment it RETURNS: at most
+// n - whole seconds since the store (an answer ages while it travels).      out: ok=<0|1> ## ttl=<t> age_ms=<a>
+func c08slowGet(m map[string]string) string {
+	rs := c08newRedis(0)
+	defer rs.close()
+	r := c08newRedisRouter(0, false, rs)
+	defer r.Close()
+	time.Sleep(1100 * time.Millisecond)
+	ttl := uint32(atoi(m["ttl"]))
+	nonce := c08nonce.Add(1)
+	q := c08question(nonce)
+	pos := c08mkMsg(c08name(nonce, 0), 1, dns.RcodeSuccess, false, []c08rr{{typ: dns.TypeA, ttl: ttl}}, nil, nil)
+	defer func() { dnsmsg.ReleaseMsg(pos); dnsmsg.ReleaseQuestion(q) }()
+	t0 := time.Now()
+	r.CacheStore(q, c08remote.Addr(), pos)
+	for i := 0; i < 100 && rs.setCount() < 1; i++ {
+		time.Sleep(10 * time.Millisecond)
+	}
+	time.Sleep(100 * time.Millisecond)
+	rs.mu.Lock()
+	rs.getLag = time.Duration(atoi(m["lag"])) * time.Millisecond
+	rs.mu.Unlock()
+	g, _, _ := r.CacheGet(q, c08remote)
+	age := time.Since(t0)
+	if g == nil {
+		return fmt.Sprintf("ok=1 ## miss age_ms=%d", age.Milliseconds()) // a miss is not a wrong ttl
+	}
+	defer dnsmsg.ReleaseMsg(g)
+	got := uint32(0)
+	if len(g.Answers) == 1 {
+		got = g.Answers[0].Hdr().TTL
+	}
+	// whole seconds between the store and the return of the lookup; the stored time has a resolution of 1 s
+	maxTTL := int64(ttl) - int64(age/time.Second) + 1
+	ok := 1
+	if int64(got) > maxTTL {
+		ok = 0
+	}
+	return fmt.Sprintf("ok=%d ## ttl=%d age_ms=%d", ok, got, age.Milliseconds())
+}
+
+// op=outage rcode=<error rcode>: memory cache (4096: rejects the big entry) in front of redis. A positive answer is
+// stored (redis only), the redis server stops answering PING (the proxy marks it lost), an error response for the
+// question is stored during the outage, the server comes back: the lookup is the positive answer — what is absent
+// in the memory cache is not absent in the cache, whether or not redis can be asked right now.   out: got=<pos|neg|miss>
+func c08outage(m map[string]string) string {
+	rs := c08newRedis(0)
+	defer rs.close()
+	cfg := &router.Config{
+		Upstreams: []router.UpstreamConfig{{Tag: "u", Addr: "udp://127.0.0.1:9"}},
+		Rules:     []router.RuleConfig{{Forward: "u"}},
+		Cache:     router.CacheConfig{MemSize: 4096, Redis: "redis://" + rs.l.Addr().String()},
+	}
+	r, err := router.VerifRun(cfg)
+	if err != nil {
+		return "fixture-error"
+	}
+	defer r.Close()
+	time.Sleep(1100 * time.Millisecond)
+	nonce := c08nonce.Add(1)
+	q := c08question(nonce)
+	name := c08name(nonce, 0)
+	pos := c08mkMsg(name, 1, dns.RcodeSuccess, false, []c08rr{{typ: dns.TypeA, ttl: 300}}, nil, nil)
+	for n := 800; n > 0; n -= 200 {
+		rr := dnsmsg.NewRaw()
+		rr.Name = nameBuf(pos.Answers[0].Hdr().Name)
+		rr.Type, rr.Class, rr.TTL = 16, 1, 300
+		d := make([]byte, 200)
+		rand.New(rand.NewSource(nonce*1000 + int64(n))).Read(d) // incompressible: the cache value is compressed
+		d[0] = 199
+		rr.Data = pool.GetBuf(len(d))
+		copy(rr.Data, d)
+		pos.Additionals = append(pos.Additionals, rr)
+	}
+	neg := c08mkMsg(name, 2, atoi(m["rcode"]), false, nil, nil, nil)
+	defer func() { dnsmsg.ReleaseMsg(pos); dnsmsg.ReleaseMsg(neg); dnsmsg.ReleaseQuestion(q) }()
+	r.CacheStore(q, c08remote.Addr(), pos)
+	for i := 0; i < 100 && rs.setCount() < 1; i++ {
+		time.Sleep(10 * time.Millisecond)
+	}
+	rs.mu.Lock()
+	rs.down = true
+	rs.mu.Unlock()
+	time.Sleep(2200 * time.Millisecond) // at least one ping fails
+	r.CacheStore(q, c08remote.Addr(), neg)
+	rs.mu.Lock()
+	rs.down = false
+	rs.mu.Unlock()
+	time.Sleep(2200 * time.Millisecond) // at least one ping succeeds
+	g, _, _ := r.CacheGet(q, c08remote)
+	if g == nil {
+		return "got=miss"
+	}
+	defer dnsmsg.ReleaseMsg(g)
+	if g.Header.RCode == dnsmsg.RCodeSuccess && len(g.Answers) == 1 {
+		return "got=pos"
+	}
+	return "got=neg"
 }
 
 // op=rstart wait=<ms>: redis only; an answer stored `wait` ms after start-up and looked up 150 ms later is a hit —
@@ -587,6 +707,8 @@ func c08redisGen(r *rand.Rand, thorough bool, emit func(c, cat string)) {
 		emit(fmt.Sprintf("op=twotier big=%d rcode=%d", big, []int{3, 2, 5}[r.Intn(3)]), fmt.Sprintf("twotier-big%d", big))
 	}
 	emit(fmt.Sprintf("op=rstart wait=%d", []int{0, 100, 400}[r.Intn(3)]), "first-second")
+	emit(fmt.Sprintf("op=slowget ttl=%d lag=%d", 50+r.Intn(100), 2200+r.Intn(600)), "slow-get")
+	emit(fmt.Sprintf("op=outage rcode=%d", []int{3, 5}[r.Intn(2)]), "outage") // lifetimes 30 s / 5 s: alive when the server is back
 	// a successful refresh replaces the entry in every tier, with a longer and with a shorter ttl
 	for _, c := range []string{"mem=1 redis=0", "mem=1 redis=1", "mem=0 redis=1"} {
 		emit(fmt.Sprintf("op=restore %s t1=%d t2=300", c, 8+r.Intn(8)), "restore-longer")
